@@ -311,7 +311,7 @@ def c02_extra(Job, tier):
     cfg = CFG_NDEBUG
     return [Job("D_info_line_%s" % cfg[0], "harness/dfs_info.c", "h_info_line", enforce=["info_line"], defines=list(cfg[1]),
                 extract=ext(INFO_GROUP), tier="quick", solver="portfolio",
-                cbmc=["--unwindset", "CatalogEntry_name.0:8", "--unwinding-assertions"])] + catsort_jobs(Job)
+                cbmc=["--unwindset", "CatalogEntry_name.0:8", "--unwinding-assertions"])] + catsort_jobs(Job) + fragment_jobs(Job)
 
 
 # ---- write_span of extract-unused (C11 dfs half, C14) ---------------------------------------------------------------
@@ -339,7 +339,7 @@ def c06_extra(Job, tier):
 
 
 def c07_extra(Job, tier):
-    return trackcheck_jobs(Job) + mmb_jobs(Job) + write_span_jobs(Job) + selector_jobs(Job) + [j for j in names_jobs(Job) if "less" in j.name]
+    return trackcheck_jobs(Job) + mmb_jobs(Job) + write_span_jobs(Job) + selector_jobs(Job) + [j for j in names_jobs(Job) if "less" in j.name] + [j for j in space_jobs(Job) if "start_sec" in j.name]
 
 
 # ---- destination directory / make_name (C12) ---------------------------------------------------------------------------
@@ -556,3 +556,13 @@ def names_jobs(Job, cfg=CFG_NDEBUG, tier="quick"):
             J("case_insensitive_less", "h_ci_less", ["case_insensitive_less"], replace=["ci_comp"]),
             J("case_insensitive_equal", "h_ci_equal", ["case_insensitive_equal"], replace=["case_insensitive_less"]),
             J("has_name", "h_has_name", ["CatalogEntry_has_name"], replace=["case_insensitive_equal", "CatalogEntry_directory"])]    # CatalogEntry::name inlined (its contract speaks about one ghost position only)
+
+
+FRAG_GROUP = ["sector_count", "byte_to_ascii7", "convert_title", "CatalogFragment_ctor"]
+
+
+def fragment_jobs(Job, cfg=CFG_NDEBUG, tier="quick"):
+    def J(name, entry, enforce, **kw):
+        return Job("D_%s_%s" % (name, cfg[0]), "harness/dfs_fragment.c", entry, enforce=enforce, defines=list(cfg[1]), extract=ext(FRAG_GROUP), tier=tier, **kw)
+    return [J("convert_title", "h_title", ["convert_title"], cbmc=["--unwindset", "convert_title_wrapped_for_contract_checking.0:9,convert_title_wrapped_for_contract_checking.1:5,convert_title.0:9,convert_title.1:5,cstr_rtrim.0:17", "--unwinding-assertions"]),
+            J("catalog_fragment_ctor", "h_fragment", ["CatalogFragment_ctor"], replace=["sector_count"])]
